@@ -5,7 +5,7 @@ __len__/__iter__/__contains__, collections.abc mixins)."""
 import ast
 
 from .src import own_nodes, norm
-from .types import Target
+from .types import Target, STR_METHODS, MUTATORS, READ_METHODS
 
 # collections.abc mixin methods -> the abstract methods they are written in terms of
 MIXIN_AXIOMS = {
@@ -186,6 +186,10 @@ class CallGraph(object):
         parent = getattr(n, '_parent', None)
         if isinstance(parent, ast.Call) and parent.func is n:
             # method call: the attribute load itself is part of the call -- unless it goes through __getattr__
+            rt = self.te.type_of(n.value, fn)
+            if (rt & {'str', 'list', 'dict', 'tuple', 'set'}) and (
+                    n.attr in STR_METHODS or n.attr in MUTATORS or n.attr in READ_METHODS):
+                return    # a builtin method of the plain value this expression may also be
             cl = self._cls_tags(n.value, fn)
             for ci in cl:
                 if not any(s.find_method(n.attr) for s in self.te.subs(ci)) and self._dyn_lookup(ci, n.attr):
